@@ -83,8 +83,8 @@ type job struct {
 
 type childResult struct {
 	ID        int    `json:"id"`
-	Delivered int    `json:"d"`             // rows delivered (and verified correct) before the terminal event
-	Bad       int    `json:"bad"`           // index of first wrong/extra row, -1 if none
+	Delivered int    `json:"d"`   // rows delivered (and verified correct) before the terminal event
+	Bad       int    `json:"bad"` // index of first wrong/extra row, -1 if none
 	BadRow    string `json:"badrow,omitempty"`
 	Term      string `json:"t"` // eof | err | panic | n-out-of-range | wrong-row | no-progress | crash | hang
 	Msg       string `json:"m,omitempty"`
